@@ -102,13 +102,25 @@ def law_probes(ctx, rng):
         def scaled(fh, fv):
             r = dict(rec, ns=(np.array(rec["ns"]) * fh).tolist(), ew=(np.array(rec["ew"]) * fh).tolist(), vt=(np.array(rec["vt"]) * fv).tolist())
             return pg.run_impl(dict(case, records=[r]))["result"]
-        c = float(rng.choice([1e-3, 0.5, 7.0, 1e4]))
+        # a power of two scales every floating-point operation of the chain exactly: the result must agree to rounding of the
+        # final division; any other factor perturbs the samples by an ulp, which ill-conditioned bins (a narrow window on a
+        # spectral trough) amplify, so those runs are compared to 1e-6 only (found on the unchanged tree at the thorough tier:
+        # parzen, bandwidth 0.025 Hz, relative difference 1.9e-8)
+        c = float(rng.choice([2.0 ** -10, 0.5, 8.0, 2.0 ** 13]))
         same = scaled(c, c)
-        if isinstance(same, str) or not pg.mat_close(same, base, 1e-9):
+        if isinstance(same, str) or not pg.mat_close(same, base, 1e-12):
             ctx.violation("unchanged-under-common-factor", dict(case=case, factor=c), seam="process")
+        c2 = float(rng.choice([1e-3, 7.0, 1e4]))
+        same2 = scaled(c2, c2)
+        if isinstance(same2, str) or not pg.mat_close(same2, base, 1e-6):
+            ctx.violation("unchanged-under-common-factor", dict(case=case, factor=c2), seam="process")
+        a, b = float(2.0 ** rng.integers(-2, 4)), float(2.0 ** rng.integers(-2, 4))
+        sc = scaled(a, b)
+        if isinstance(sc, str) or not pg.mat_close(sc, base * (a / b), 1e-12):
+            ctx.violation("linear-in-horizontals-inverse-in-vertical", dict(case=case, a=a, b=b), seam="process")
         a, b = float(rng.uniform(0.5, 4)), float(rng.uniform(0.5, 4))
         sc = scaled(a, b)
-        if isinstance(sc, str) or not pg.mat_close(sc, base * (a / b), 1e-9):
+        if isinstance(sc, str) or not pg.mat_close(sc, base * (a / b), 1e-6):
             ctx.violation("linear-in-horizontals-inverse-in-vertical", dict(case=case, a=a, b=b), seam="process")
         if prop:
             if fam == "trad":
